@@ -63,15 +63,41 @@ def _case(draw):
     sub = specs.spec_strategy(depth=draw(st.sampled_from([0, 1, 2])), sat=True)
     if kind == "or":
         c["a"], c["b"], c["c"] = draw(sub), draw(sub), draw(sub)
+        if draw(st.integers(0, 2)) == 0:
+            # a large union: three unions of three alternatives each
+            leaf = specs.spec_strategy(depth=draw(st.sampled_from([0, 0, 1])), sat=True, alias=False)
+            for k in "abc":
+                c[k] = {"t": "any", "alts": draw(st.lists(leaf, min_size=3, max_size=3))}
         c["values"] = _probe_values(draw, [c["a"], c["b"], c["c"]])
+        # values an operand accepts through a subclass relation: bool under int, datetime under date, instances of
+        # dict subclasses under dict ...
+        for sp in (c["a"], c["b"], c["c"]):
+            try:
+                c["values"].append(draw(values.typed_zoo(sp))[0])
+                c["values"].append(values.wrap_dicts(draw, draw(values.conforming(sp))))
+            except values.Unsat:
+                pass
     elif kind == "add":
-        c["a"], c["b"] = draw(_declared_dict()), draw(_declared_dict())
+        dd = draw(st.sampled_from([1, 1, 2]))
+        c["a"], c["b"] = draw(_declared_dict(dd)), draw(_declared_dict(dd))
         if c["a"]["entries"] and draw(st.booleans()):
             # force an overlapping key with independent spec / optionality
             e = draw(st.sampled_from(c["a"]["entries"]))
             if not values._key_in(e["key"], [x["key"] for x in c["b"]["entries"]]):
                 c["b"]["entries"].append({"key": e["key"], "opt": draw(st.booleans()),
                                           "spec": draw(specs.spec_strategy(depth=0, sat=True))})
+        if draw(st.integers(0, 3)) == 0:
+            # a key declared by both operands whose members are themselves dicts (two partial descriptions of one
+            # nested object): the right one replaces the left one, it is not merged with it
+            m1, m2 = draw(_declared_dict(1)), draw(_declared_dict(1))
+            flags = draw(st.sampled_from([(True, True), (True, True), (True, False), (False, True), (False, False)]))
+            m1["relaxed"], m2["relaxed"] = flags
+            m1.pop("relaxed_at", None)
+            m2.pop("relaxed_at", None)
+            key = draw(st.sampled_from(["nested", "a", "user"]))
+            for d, m in ((c["a"], m1), (c["b"], m2)):
+                d["entries"] = [x for x in d["entries"] if not values._key_in(key, [x["key"]])]
+                d["entries"].append({"key": key, "opt": draw(st.booleans()), "spec": m})
         c["values"] = _probe_values(draw, [model.merge(c["a"], c["b"]), c["a"], c["b"]])
     elif kind == "required":
         c["d"] = draw(_declared_dict(draw(st.sampled_from([1, 2]))))
